@@ -289,12 +289,31 @@ RefBroken(ws, allrefs) ==
                      : fr \in {x \in allrefs : x[2].slot = "extendee" /\ x[2].exp.outcome = "ok"}}
         IN IF Cardinality({<<p[1], p[2]>> : p \in xp}) # Cardinality(xp) THEN {"V-ext-dup"} ELSE {})
 
+(* CUSTOM OPTION rules (an option use is `(name) = 1` on a file, message, field, extension, enum,
+   enum value, service or method; the name must resolve to an extension, V-ref-resolve / V-ref-kind)
+   V-opt-extendee  protoc: Option field "(a.zo)" is not a field or extension of message "FieldOptions".
+                   (the extension extends another message than the options message of that element kind)
+   V-opt-dup       protoc: Option "(a.zo)" was already set.   (the modelled option extensions are singular) *)
+ExtendeeOf(refs, f, d) ==
+  LET m == {fr \in refs : fr[1] = f /\ fr[2].decl = d /\ fr[2].slot = "extendee"}
+  IN IF m = {} THEN "" ELSE (CHOOSE fr \in m : TRUE)[2].exp.fqn
+OptRefs(refs) == {fr \in refs : IsOptSlot(fr[2].slot) /\ fr[2].exp.outcome = "ok"}
+OptBroken(ws, refs) ==
+  LET os == OptRefs(refs)
+  IN (IF \E fr \in os :
+           LET ekind == IF fr[2].decl = 0 THEN "file" ELSE ws[fr[1]].decls[fr[2].decl].kind
+           IN ExtendeeOf(refs, fr[2].exp.deffile, fr[2].exp.defdecl) # "google.protobuf." \o OptionMsgOf[ekind]
+        THEN {"V-opt-extendee"} ELSE {})
+     \cup (IF \E a, b \in os : a # b /\ a[1] = b[1] /\ a[2].decl = b[2].decl
+                               /\ a[2].exp.deffile = b[2].exp.deffile /\ a[2].exp.defdecl = b[2].exp.defdecl
+             THEN {"V-opt-dup"} ELSE {})
+
 (* Broken: every rule the workspace violates.  refs = AllRefs(Sane(ws)) passed in by callers that
    need it anyway. *)
 BrokenX(ws, sane, refs) ==
   ImportBroken(ws) \cup SymbolBroken(sane)
   \cup UNION {StructBroken(sane[g]) : g \in {h \in Files(sane) : ~sane[h].builtin}}
-  \cup RefBroken(sane, refs)
+  \cup RefBroken(sane, refs) \cup OptBroken(sane, refs)
 Broken(ws) == LET sane == Sane(ws) IN BrokenX(ws, sane, AllRefs(sane))
 ValidV(ws) == Broken(ws) = {}
 
@@ -304,9 +323,15 @@ ValidV(ws) == Broken(ws) = {}
      project may differ there; not decided here
    - explicit json_name values must not collide with any default or custom JSON name of a sibling
    - extensions carry no json_name
+   - an option use `(name) = 1` must name a singular integer extension (or not resolve to one at
+     all); oneofs carry no options
    - allow_alias only on an enum that does have two values with one number (whether an unused
      allow_alias is an error in protoc 33 is not certain) *)
 CoveredX(ws, refs) ==
+  /\ \A fr \in OptRefs(refs) :
+       LET x == ws[fr[2].exp.deffile].decls[fr[2].exp.defdecl]
+       IN x.scalar \in IntScalars /\ x.label # "repeated" /\ ~IsRef(x.type)
+  /\ \A g \in Files(ws) : \A d \in Decls(ws[g]) : ws[g].decls[d].opts # <<>> => ws[g].decls[d].kind # "oneof"
   /\ \A g \in Files(ws) : \A e \in OfKind(ws[g], "enum") :
        ws[g].decls[e].alias =>
          LET vs == KidSeq(ws[g], e)
@@ -340,14 +365,24 @@ CoveredX(ws, refs) ==
                     is repeated TYPE_MESSAGE with that type
      D-ranges       extension_range / reserved_range with exclusive end
      D-deps         dependency in source order, public_dependency = 0-based indices
+     D-ext-options  the custom options of an element: the extension numbers present in its options message
+                    (each set to 1), ascending, as member ext_options
      D-options      options.allow_alias of an enum, options.deprecated of a field (the two modelled standard
                     options) appear as members allow_alias / deprecated; any other option is unexpected
      D-syntax       syntax unset for proto2, "proto3", or "editions" + edition EDITION_2023 *)
 Dot(s) == "." \o s
+Opt(c, r) == IF c THEN r ELSE <<>>
+(* D-ext-options: the numbers of the option extensions set on an element (each with value 1), ascending *)
+OptNumsD(ws, env, g, d, opts) ==
+  SortSeq(MapSeq(IdxSeq(Len(opts)), LAMBDA k :
+            LET e == Outcome(ws, env, g, d, OptSlot(k), opts[k].name)
+            IN ws[e.deffile].decls[e.defdecl].num),
+          LAMBDA a, b : a < b)
+OptsD(ws, env, g, d) ==
+  LET opts == IF d = 0 THEN ws[g].opts ELSE ws[g].decls[d].opts
+  IN Opt(opts # <<>>, [ext_options |-> OptNumsD(ws, env, g, d, opts)])
 LabelD(dl) == IF dl.label = "repeated" \/ IsMap(dl) THEN "LABEL_REPEATED"
               ELSE IF dl.label = "required" THEN "LABEL_REQUIRED" ELSE "LABEL_OPTIONAL"
-Opt(c, r) == IF c THEN r ELSE <<>>
-
 (* oneofPos: 0 = not in a oneof, else 1-based position of its oneof declaration *)
 FieldD(ws, env, g, d, oneofPos) ==
   LET F == ws[g]  dl == F.decls[d]
@@ -366,11 +401,15 @@ FieldD(ws, env, g, d, oneofPos) ==
      @@ Opt(F.syntax = "proto3" /\ dl.label = "optional", [proto3_optional |-> TRUE])
      @@ Opt(dl.dflt # "", [default_value |-> dl.dflt])
      @@ Opt(dl.dep, [deprecated |-> TRUE])
+     @@ OptsD(ws, env, g, d)
 
-EnumD(F, e) ==
-  [name |-> F.decls[e].name,
-   value |-> MapSeq(KidSeq(F, e), LAMBDA v : [name |-> F.decls[v].name, number |-> F.decls[v].num])]
-  @@ Opt(F.decls[e].alias, [allow_alias |-> TRUE])
+EnumD(ws, env, g, e) ==
+  LET F == ws[g]
+  IN [name |-> F.decls[e].name,
+      value |-> MapSeq(KidSeq(F, e), LAMBDA v : [name |-> F.decls[v].name, number |-> F.decls[v].num]
+                                                @@ OptsD(ws, env, g, v))]
+     @@ Opt(F.decls[e].alias, [allow_alias |-> TRUE])
+     @@ OptsD(ws, env, g, e)
 
 (* the synthetic entry message of map field d *)
 MapEntryD(ws, env, g, d) ==
@@ -403,7 +442,7 @@ MsgD(ws, env, g, m) ==
      @@ Opt(nested # <<>>, [nested_type |-> MapSeq(nested, LAMBDA c : IF F.decls[c].kind = "message"
                                                         THEN MsgD(ws, env, g, c) ELSE MapEntryD(ws, env, g, c))])
      @@ Opt(\E c \in Range(kids) : F.decls[c].kind = "enum",
-            [enum_type |-> MapSeq(SelectSeq(kids, LAMBDA c : F.decls[c].kind = "enum"), LAMBDA c : EnumD(F, c))])
+            [enum_type |-> MapSeq(SelectSeq(kids, LAMBDA c : F.decls[c].kind = "enum"), LAMBDA c : EnumD(ws, env, g, c))])
      @@ Opt(\E c \in Range(kids) : F.decls[c].kind = "ext",
             [extension |-> MapSeq(SelectSeq(kids, LAMBDA c : F.decls[c].kind = "ext"),
                                   LAMBDA c : FieldD(ws, env, g, c, 0))])
@@ -413,6 +452,7 @@ MsgD(ws, env, g, m) ==
      @@ Opt(dl.xr # <<>>, [extension_range |-> MapSeq(dl.xr, RangeD)])
      @@ Opt(dl.rr # <<>>, [reserved_range |-> MapSeq(dl.rr, RangeD)])
      @@ Opt(dl.rn # <<>>, [reserved_name |-> dl.rn])
+     @@ OptsD(ws, env, g, m)
 
 SvcD(ws, env, g, s) ==
   LET F == ws[g]
@@ -422,7 +462,9 @@ SvcD(ws, env, g, s) ==
                     input_type |-> Dot(Outcome(ws, env, g, c, "input", F.decls[c].input).fqn),
                     output_type |-> Dot(Outcome(ws, env, g, c, "output", F.decls[c].output).fqn)]
                    @@ Opt(F.decls[c].cs, [client_streaming |-> TRUE])
-                   @@ Opt(F.decls[c].ss, [server_streaming |-> TRUE]))]
+                   @@ Opt(F.decls[c].ss, [server_streaming |-> TRUE])
+                   @@ OptsD(ws, env, g, c))]
+     @@ OptsD(ws, env, g, s)
 
 (* ws must be Sane and valid *)
 Descriptor(ws, g) ==
@@ -437,9 +479,10 @@ Descriptor(ws, g) ==
       dependency |-> MapSeq(F.imports, LAMBDA i : i.path),
       public_dependency |-> MapSeq(pub, LAMBDA k : k - 1),
       message_type |-> MapSeq(Of("message"), LAMBDA c : MsgD(ws, env, g, c)),
-      enum_type |-> MapSeq(Of("enum"), LAMBDA c : EnumD(F, c)),
+      enum_type |-> MapSeq(Of("enum"), LAMBDA c : EnumD(ws, env, g, c)),
       service |-> MapSeq(Of("service"), LAMBDA c : SvcD(ws, env, g, c)),
       extension |-> MapSeq(Of("ext"), LAMBDA c : FieldD(ws, env, g, c, 0))]
+     @@ OptsD(ws, env, g, 0)
 
 -----------------------------------------------------------------------------
 (* export views (JSON schema of harness/_common/ws in x-mode; default-valued members omitted) *)
@@ -454,6 +497,6 @@ DeclVX(d) ==
 FileVX(F) ==
   [path |-> F.path, pkg |-> F.pkg, syntax |-> F.syntax, imports |-> F.imports, x |-> TRUE,
    decls |-> MapSeq(IdxSeq(Len(F.decls)), LAMBDA d : DeclVX(F.decls[d]))]
-  @@ Opt(F.builtin, [builtin |-> TRUE])
+  @@ Opt(F.builtin, [builtin |-> TRUE]) @@ Opt(F.opts # <<>>, [opts |-> OptV(F.opts)])
 WsVX(ws) == MapSeq(IdxSeq(Len(ws)), LAMBDA g : FileVX(ws[g]))
 =============================================================================
